@@ -1,4 +1,9 @@
-#![allow(dead_code, unreachable_patterns, clippy::too_many_arguments, clippy::type_complexity)]
+#![allow(
+    dead_code,
+    unreachable_patterns,
+    clippy::too_many_arguments,
+    clippy::type_complexity
+)]
 mod api;
 mod asyncmc;
 mod config;
@@ -58,7 +63,10 @@ fn main() {
         Ok("thorough") => Tier::Thorough,
         _ => Tier::Quick,
     };
-    let seed = std::env::var("VERIF_SEED").ok().and_then(|s| s.parse().ok()).unwrap_or(0);
+    let seed = std::env::var("VERIF_SEED")
+        .ok()
+        .and_then(|s| s.parse().ok())
+        .unwrap_or(0);
     let mut only_cfg = None;
     let mut i = 3;
     while i < args.len() {
@@ -94,13 +102,20 @@ fn main() {
         Err(_) => {
             // the run itself unwound: a library panic that escaped every guard is still a finding
             // (no operation may panic); a panic in harness code is a machinery failure
-            let m = api::LAST_UNGUARDED_PANIC.lock().unwrap().clone().unwrap_or_default();
+            let m = api::LAST_UNGUARDED_PANIC
+                .lock()
+                .unwrap()
+                .clone()
+                .unwrap_or_default();
             if m.contains("/repo/src/") && args[1] == "check" {
                 let _ = std::fs::create_dir_all("/verif/replays");
                 let path = format!("/verif/replays/{}-library-panic.json", args[2]);
                 let _ = std::fs::write(&path, serde_json::json!({"engine": "main", "summary": "the library panicked in a call the harness makes outside its guards (setup or observation)", "panic": m}).to_string());
                 println!("VIOLATION property={} replay={}", args[2], path);
-                println!("  signature: library-panic-outside-guard|{}", m.split(" @ ").last().unwrap_or(""));
+                println!(
+                    "  signature: library-panic-outside-guard|{}",
+                    m.split(" @ ").last().unwrap_or("")
+                );
                 1
             } else {
                 eprintln!("MACHINERY: the harness panicked: {}", m);
